@@ -2,7 +2,7 @@
     [Bignums.BigZ] (about 25 us per modular multiplication under vm_compute). *)
 From Coq Require Import ZArith NArith List Uint63 Bool.
 From Bignums Require Import BigZ.
-From BP Require Import Base.Field.
+From BP Require Import Base.Field Model.RejectZero.
 Import ListNotations.
 
 Definition lZ : Z := (2 ^ 252 + 27742317777372353535851937790883648493)%Z.
@@ -43,10 +43,6 @@ Fixpoint klist_eqb (a b : list bigZ) : bool :=
   | _, _ => false
   end.
 
-(** [Scalar::random_not_zero] over a stream of draws: the first [n] non-zero values *)
-Fixpoint take_nonzero (n : nat) (draws : list bigZ) : list bigZ :=
-  match n, draws with
-  | O, _ => []
-  | _, [] => []
-  | S n', d :: ds => if BigZ.eqb d 0 then take_nonzero n ds else d :: take_nonzero n' ds
-  end.
+(** [Scalar::random_not_zero] over a stream of draws: the first [n] non-zero values — the generic
+    Model/RejectZero.v function (the subject of C08_weights_nonzero / C13_rng_nonces_nonzero) at this field *)
+Definition take_nonzero (n : nat) (draws : list bigZ) : list bigZ := RejectZero.take_nonzero Kl n draws.
